@@ -39,6 +39,7 @@ import (
 
 func init() {
 	validExtra = append(validExtra, func(thorough bool) *wgen.Family { return wgen.F9Lite() })
+	c09Extra = append(c09Extra, c09xPass)
 	extraFamilyByName["F9lite"] = wgen.F9Lite
 	extraFamilyByName["F9"] = func() *wgen.Family { return wgen.F9(false) }
 	extraFamilyByName["F9T"] = func() *wgen.Family { return wgen.F9(true) }
